@@ -16,6 +16,29 @@ use std::time::Instant;
 
 pub const VERIF_DIR: &str = "/verif";
 
+thread_local! {
+    /// location of the last panic raised on this thread (set by the panic hook in main.rs)
+    pub static LAST_PANIC_LOC: std::cell::RefCell<String> = const { std::cell::RefCell::new(String::new()) };
+}
+
+fn normalize_panic(msg: &str) -> String {
+    let mut out = String::new();
+    let mut last_digit = false;
+    for c in msg.chars() {
+        if c.is_ascii_digit() {
+            if !last_digit {
+                out.push('N');
+            }
+            last_digit = true;
+        } else {
+            last_digit = false;
+            out.push(if c.is_ascii_alphanumeric() || c == '-' { c } else { '_' });
+        }
+    }
+    out.truncate(60);
+    out
+}
+
 #[derive(Clone, Copy, PartialEq, Eq, Debug)]
 pub enum Tier {
     Quick,
@@ -155,6 +178,29 @@ impl Ctx {
             count: 0,
         });
         e.count += 1;
+    }
+
+    /// Run one case; a panic raised by code of the subject (source under /repo) is a violation of
+    /// that case, a panic of the harness itself is re-raised (machinery failure, exit 2).
+    pub fn guard<R>(&self, what: &str, case: Value, f: impl FnOnce() -> R) -> Option<R> {
+        match std::panic::catch_unwind(std::panic::AssertUnwindSafe(f)) {
+            Ok(r) => Some(r),
+            Err(p) => {
+                let loc = LAST_PANIC_LOC.with(|c| c.borrow().clone());
+                let msg = p.downcast_ref::<String>().cloned().or_else(|| p.downcast_ref::<&str>().map(|s| s.to_string())).unwrap_or_else(|| "panic".into());
+                if loc.starts_with("/repo/") {
+                    let file = loc.trim_start_matches("/repo/").split(':').next().unwrap_or("").to_string();
+                    self.violation(
+                        &format!("{}:panic:{}:{}", self.prop, file, normalize_panic(&msg)),
+                        &format!("{}: the code under test panicked at {}: {}", what, loc, msg),
+                        case,
+                    );
+                    None
+                } else {
+                    std::panic::resume_unwind(p)
+                }
+            }
+        }
     }
 
     pub fn violation_classes(&self) -> usize {
